@@ -157,7 +157,7 @@ def c04_adaptation(out, tier, seed):
             out.inconclusive.append("c04 prefix: %r" % (res,))
             continue
         m, me = res
-        u.holds(ctx, "every transition increases the warm-up counter by exactly one", me.get("m") == m + 1)
+        u.holds(ctx, "every transition increases the warm-up counter by exactly one", me.get("m") == m + 1, RP_ADAPT)
 
     # (3) adaptation tail from an arbitrary state ------------------------------------------------
     exit_bb = find_loop_exit(fn, "s")
@@ -196,30 +196,29 @@ def c04_adaptation(out, tier, seed):
         mr, nar = Num(z3.ToReal(m)), Num(z3.ToReal(na))
         eta = Num(1) / (mr + T0)
         hbar = (Num(1) - eta) * st["h_bar"] + eta * (st["delta"] - st["alpha"] / nar)
-        warm_res, _ = eng.check_unsat(ctx, m > nd, 20000)
-        frozen_res, _ = eng.check_unsat(ctx, m <= nd, 20000)
-        u.equal(ctx, "H-bar' = (1 - 1/(m+t0)) H-bar + (delta - alpha/n_alpha)/(m+t0)", me.get("h_bar"), hbar)
-        if warm_res == "unsat":  # path with m <= n_discard
-            seen["warm"] += 1
-            eps = exp(st["mu"] - sqrt(mr) / Num(GAMMA) * hbar)
-            x = powf(mr, Num(-KAPPA))
-            ebar = exp((Num(1) - x) * ln(st["epsilon_bar"]) + x * ln(eps))
-            u.equal(ctx, "warm-up: epsilon' = exp(mu - sqrt(m)/gamma * H-bar')", me.get("epsilon"), eps)
-            u.equal(ctx, "warm-up: epsilon-bar' = exp(m^-kappa ln epsilon' + (1 - m^-kappa) ln epsilon-bar)", me.get("epsilon_bar"), ebar)
-            u.holds(ctx, "warm-up: the new step size and averaged iterate are positive (given exp > 0)",
-                    z3.And(me.get("epsilon").z() > 0, me.get("epsilon_bar").z() > 0), None, None,
-                    exp_positive(me.get("epsilon").z()) + exp_positive(me.get("epsilon_bar").z()))
-        elif frozen_res == "unsat":
+        u.equal(ctx, "H-bar' = (1 - 1/(m+t0)) H-bar + (delta - alpha/n_alpha)/(m+t0)", me.get("h_bar"), hbar, RP_ADAPT)
+        warm = m <= nd
+        eps_w = exp(st["mu"] - sqrt(mr) / Num(GAMMA) * hbar)
+        x = powf(mr, Num(-KAPPA))
+        ebar_w = exp((Num(1) - x) * ln(st["epsilon_bar"]) + x * ln(eps_w))
+        u.holds(ctx, "warm-up (m <= n_discard): epsilon' = exp(mu - sqrt(m)/gamma * H-bar'); afterwards epsilon' = epsilon-bar",
+                me.get("epsilon").z() == z3.If(warm, eps_w.z(), st["epsilon_bar"].z()), RP_ADAPT)
+        u.holds(ctx, "warm-up: epsilon-bar' = exp(m^-kappa ln epsilon' + (1 - m^-kappa) ln epsilon-bar); afterwards it never changes",
+                me.get("epsilon_bar").z() == z3.If(warm, ebar_w.z(), st["epsilon_bar"].z()), RP_ADAPT)
+        u.holds(ctx, "the step size and the averaged iterate stay positive (given exp > 0)",
+                z3.And(me.get("epsilon").z() > 0, me.get("epsilon_bar").z() > 0), RP_ADAPT, None,
+                exp_positive(me.get("epsilon").z()) + exp_positive(me.get("epsilon_bar").z()))
+        r_w, _ = eng.check_unsat(ctx, z3.Not(warm), 20000)
+        r_f, _ = eng.check_unsat(ctx, warm, 20000)
+        if r_w != "unsat":
             seen["frozen"] += 1
-            u.equal(ctx, "after warm-up the step size equals the averaged iterate", me.get("epsilon"), st["epsilon_bar"])
-            u.equal(ctx, "after warm-up the averaged iterate never changes", me.get("epsilon_bar"), st["epsilon_bar"])
-        else:
-            out.inconclusive.append("c04 tail: path does not decide m <= n_discard")
+        if r_f != "unsat":
+            seen["warm"] += 1
         u.holds(ctx, "adaptation leaves the counter, warm-up length, mu and the constants alone",
                 z3.And(zint_eq(me.get("m"), m), zint_eq(me.get("n_discard"), nd), me.get("mu").eq(st["mu"]) if isinstance(me.get("mu").eq(st["mu"]), z3.BoolRef) else z3.BoolVal(bool(me.get("mu").eq(st["mu"]))),
                        z3.BoolVal(me.get("t_0") == T0)))
-    u.reached("adaptation step during warm-up (m <= n_discard)", seen["warm"])
-    u.reached("adaptation step after warm-up (m > n_discard)", seen["frozen"])
+    u.reached("adaptation step with m <= n_discard feasible", seen["warm"])
+    u.reached("adaptation step with m > n_discard feasible", seen["frozen"])
 
     # (4) init_chain: shrinkage point and first-use heuristic ------------------------------------
     calls = {"n": 0}
@@ -391,6 +390,16 @@ def beq(a, b):
     return zi(a) == zi(b)
 
 
+def RP_TREE(model):
+    import m_replay
+    return m_replay.replay_nuts("tree")
+
+
+def RP_ADAPT(model):
+    import m_replay
+    return m_replay.replay_nuts("adapt")
+
+
 def c03_build_tree(out, tier, seed):
     eng = mir_load.load_engine()
     mirsym.MUL_MODE["mode"] = "uf"
@@ -447,7 +456,7 @@ def _build_tree_config(eng, u, out, dim, j, v):
             if a6.k != len(draws):
                 raise Mismatch("the implementation drew %d uniforms, Algorithm 6 uses %d" % (len(draws), a6.k))
         except Mismatch as e:
-            u.holds(ctx, "build_tree follows Algorithm 6's control flow and draw order", False, None, inst + ": " + str(e))
+            u.holds(ctx, "build_tree follows Algorithm 6's control flow and draw order", False, RP_TREE, inst + ": " + str(e))
             continue
         n_paths["total"] += 1
         pairs = [("backward end of the subtree (position, momentum, gradient)", vec(f[0]) + vec(f[1]) + vec(f[2]), t["thm"] + t["rm"] + t["gm"]),
@@ -456,9 +465,9 @@ def _build_tree_config(eng, u, out, dim, j, v):
         for label, a, b in pairs:
             conj = z3.And([Num.of(x).eq(Num.of(y)) if not isinstance(Num.of(x).eq(Num.of(y)), bool) else z3.BoolVal(Num.of(x).eq(Num.of(y)))
                            for x, y in zip(a, b)])
-            u.holds(ctx, "build_tree = Algorithm 6: " + label, conj, None, inst)
-        u.holds(ctx, "build_tree = Algorithm 6: number of slice-admissible points n'", beq(f[9], t["n"]), None, inst)
-        u.holds(ctx, "build_tree = Algorithm 6: continue flag s' (no divergence, no U-turn, no stopped subtree)", beq(f[10], t["s"]), None, inst)
-        u.equal(ctx, "build_tree = Algorithm 6: acceptance statistic sum alpha'", f[11], t["a"], None, inst)
-        u.holds(ctx, "build_tree = Algorithm 6: acceptance statistic count n_alpha' = 2^j leapfrogs actually taken", beq(f[12], t["na"]), None, inst)
+            u.holds(ctx, "build_tree = Algorithm 6: " + label, conj, RP_TREE, inst)
+        u.holds(ctx, "build_tree = Algorithm 6: number of slice-admissible points n'", beq(f[9], t["n"]), RP_TREE, inst)
+        u.holds(ctx, "build_tree = Algorithm 6: continue flag s' (no divergence, no U-turn, no stopped subtree)", beq(f[10], t["s"]), RP_TREE, inst)
+        u.equal(ctx, "build_tree = Algorithm 6: acceptance statistic sum alpha'", f[11], t["a"], RP_TREE, inst)
+        u.holds(ctx, "build_tree = Algorithm 6: acceptance statistic count n_alpha' = 2^j leapfrogs actually taken", beq(f[12], t["na"]), RP_TREE, inst)
     u.reached("build_tree paths at dim=%d depth=%d v=%d" % (dim, j, v), n_paths["total"])
